@@ -176,8 +176,16 @@ class Fresh:
                 it = self.prov(v[1], st, depth + 1, seen | {name})
                 pv = (it[1], False, "element of %s" % norm(v[1]))
             elif isinstance(v, tuple) and v[0] in ("unpack", "unpack*"):
-                it = self.prov(v[1], st, depth + 1, seen | {name})
-                pv = (it[1], False, "component of %s" % norm(v[1]))
+                base = v[1]
+                through_loop = False
+                while isinstance(base, tuple):
+                    through_loop = through_loop or base[0] == "loop"
+                    base = base[1]
+                # for i, x in enumerate(X): x is an element of X
+                while isinstance(base, ast.Call) and isinstance(base.func, ast.Name) and base.func.id in ("enumerate", "reversed", "list", "tuple", "sorted") and len(base.args) >= 1:
+                    base = base.args[0]
+                it = self.prov(base, st, depth + 1, seen | {name})
+                pv = (it[1], False, "%s of %s" % ("element" if through_loop else "component", norm(base)))
             elif isinstance(v, tuple) and v[0] == "aug":
                 pv = (True, True, "augmented")
                 continue
